@@ -325,6 +325,13 @@ class Scanner:
                 hb = self.facts.body(c.target()) if c is not None else None
                 if c is not None and c.name == "index" and len(args) == 2 and args[1][0] == "range":
                     res_v = ("slice", args[1][1])
+                elif c is not None and c.name == "new" and "RangeInclusive" in c.path and len(args) == 2:
+                    # `start..=end` is the half-open range start..end+1
+                    res_v = ("range", [args[0], self._binop("Add", args[1], ("int", 1))])
+                elif c is not None and c.name == "len" and args and args[0][0] in ("slice", "ref") and \
+                        (args[0] if args[0][0] == "slice" else args[0][1])[0] == "slice":
+                    sl_ = args[0] if args[0][0] == "slice" else args[0][1]
+                    res_v = self._binop("Sub", sl_[1][1], sl_[1][0])
                 elif c is not None and c.name == "digest_bytes" and args and args[0][0] in ("slice", "ref"):
                     a0 = args[0] if args[0][0] == "slice" else args[0][1]
                     res_v = ("digest", a0[1] if a0[0] == "slice" else None)
